@@ -171,6 +171,17 @@ func init() {
 		default:
 			return "", fmt.Errorf("replicator.IgnoreMessage: unknown condition %q", ic)
 		}
+		// partition.replica: which calls on the replicator sit in the error branch of GetMessage and which in the else branch
+		pf, err := get("replica/partition.go")
+		if err != nil {
+			return "", err
+		}
+		prf := FindFunc(pf, "partition", "replica")
+		if prf == nil {
+			return "", fmt.Errorf("func partition.replica not found")
+		}
+		fmt.Fprintf(&sb, "/-- partition.replica: the assignments from replicator calls, the guards, and the replicator calls (with arguments) of the `err != nil` branch after GetMessage (`then:`) and of its else branch (`else:`) -/\ndef partitionReplicaBranches : List String := %s\n\n",
+			LeanStrList(c07ReplicaBranches(prf)))
 		atomic, err := C07AtomicAcquire(repo)
 		if err != nil {
 			return "", err
@@ -613,4 +624,66 @@ func earlyReturnResets(fd *ast.FuncDecl) bool {
 		return found
 	}
 	return false
+}
+
+// c07ReplicaBranches describes the data flow of partition.replica around GetMessage: every
+// assignment whose right-hand side is a call on `replicator` ("assign:<lhs> := <call>"), every if
+// condition that is not the error test ("if:<cond>"), and for the `err != nil` test every call on
+// `replicator` in its body ("then:<call>") and in its else branch ("else:<call>"), in source order.
+func c07ReplicaBranches(fd *ast.FuncDecl) []string {
+	var out []string
+	if fd == nil || fd.Body == nil {
+		return out
+	}
+	onRepl := func(c *ast.CallExpr) bool {
+		sel, ok := c.Fun.(*ast.SelectorExpr)
+		if !ok {
+			return false
+		}
+		id, ok := sel.X.(*ast.Ident)
+		return ok && id.Name == "replicator"
+	}
+	calls := func(n ast.Node, tag string) {
+		if n == nil {
+			return
+		}
+		ast.Inspect(n, func(x ast.Node) bool {
+			if c, ok := x.(*ast.CallExpr); ok && onRepl(c) {
+				if sel := c.Fun.(*ast.SelectorExpr); sel.Sel.Name != "String" {
+					out = append(out, tag+c07Text(c))
+				}
+			}
+			return true
+		})
+	}
+	ast.Inspect(fd.Body, func(n ast.Node) bool {
+		switch x := n.(type) {
+		case *ast.FuncLit:
+			return false
+		case *ast.AssignStmt:
+			if len(x.Rhs) == 1 {
+				if c, ok := x.Rhs[0].(*ast.CallExpr); ok && onRepl(c) {
+					var lhs []string
+					for _, l := range x.Lhs {
+						lhs = append(lhs, c07Text(l))
+					}
+					out = append(out, "assign:"+strings.Join(lhs, ", ")+" "+x.Tok.String()+" "+c07Text(c))
+				}
+			}
+		case *ast.IfStmt:
+			cond := c07Text(x.Cond)
+			if cond == "err != nil" {
+				calls(x.Body, "then:")
+				if x.Else != nil {
+					calls(x.Else, "else:")
+				} else {
+					out = append(out, "else:none")
+				}
+				return false
+			}
+			out = append(out, "if:"+cond)
+		}
+		return true
+	})
+	return out
 }
